@@ -9,6 +9,7 @@ contract("C08.find_non_matching_braces",
                                     " for k in range(len(result)))",
          },
          locals={"issues": "List[Int]"},
+         bounded={"hed_string": "str:{}a:7:10"},
          loops={0: {"invariant": [
              "open_brace_index == open_at(hed_string, _n)",
              "-1 <= open_brace_index < _n",
